@@ -68,7 +68,14 @@ def gen(rng):
         new = old if rr < 0.3 and old != "-" else ("-" if rr < 0.4 else gen_filter(rng))
         pubs = ";".join(gen_tags(rng) for _ in range(rng.randint(1, 5)))
         return f"rf map={rng.choice([0, 1])} old={old} new={new} pubs={pubs}"
-    path = rng.choice(["live", "live", "rec", "rec", "cache", "map", "map", "map", "streamless"])
+    if r < 0.22:
+        # several concurrent subscribers of one channel (same protocol), own filters each, many publications
+        k = rng.choice([2, 2, 3, 4])
+        sfs = "|".join(gen_filter(rng) if rng.random() < 0.6 else "-" for _ in range(k))
+        cfs = "|".join(gen_filter(rng) if rng.random() < 0.6 else "-" for _ in range(k))
+        pubs = ";".join(gen_tags(rng) for _ in range(rng.choice([6, 12, 20, 30])))
+        return f"fs path=multi proto={rng.choice(['json', 'pb'])} pos={rng.choice([0, 1])} sfs={sfs} cfs={cfs} pubs={pubs}"
+    path = rng.choice(["live", "rec", "rec", "cache", "cache", "map", "map", "map", "streamless"])
     sf = gen_filter(rng) if rng.random() < 0.75 else "-"
     cf = gen_filter(rng) if rng.random() < 0.75 else "-"
     n = rng.choice([2, 4, 6, 9, 14])
@@ -92,6 +99,12 @@ def gen(rng):
         pos = 1
         pre = rng.randint(0, n)
         win = rng.randint(0, min(2, n - pre)) if rng.random() < 0.4 else 0
+        if rng.random() < 0.55:
+            # cache empty (or everything in it filtered): the OnCacheEmpty handler populates it with the
+            # `mid` publications and reports Populated -> retry of recoverCache
+            pre = rng.choice([0, 0, 1])
+            mid = rng.randint(1, min(5, n - pre))
+            win = 0
     elif path == "map":
         pos = 1
         pre = rng.randint(0, n)
@@ -154,6 +167,19 @@ def oracle(op, out):
                     res.append((f"after sub-refresh publication {i} was pushed although the server filter now in force excludes it",
                                 {"kind": "leak", "section": "push-after-refresh", "filter": "server"}))
         return res
+    if okv.get("path") == "multi":
+        nsub = len(okv["sfs"].split("|"))
+        for k in range(nsub):
+            tk = [(t[0] == "1", t[1] == "1") for t in kv.get(f"T{k}", "").split(",") if t]
+            for i in secs.get(f"push{k}", []):
+                if i < 0 or i >= len(tk):
+                    res.append((f"subscriber {k}: delivered something that is not one of the publications ({i})",
+                                {"kind": "unknown-publication", "section": "push", "path": "multi"}))
+                elif not tk[i][0] or not tk[i][1]:
+                    which = "server" if not tk[i][0] else "client"
+                    res.append((f"subscriber {k} of {nsub} on one channel: publication {i} excluded by its {which} tags "
+                                "filter was pushed to it", {"kind": "leak", "section": "push", "path": "multi", "filter": which}))
+        return res
     for sec in SECTIONS + ["early"]:
         for i in secs.get(sec, []):
             if i < 0 or i >= len(tb):
@@ -170,7 +196,7 @@ def oracle(op, out):
 
 def model_line(op, out):
     kv, _ = parse_out(out)
-    extra = [f"T={kv.get('T', '')}"]
+    extra = [f"{k}={v}" for k, v in kv.items() if re.fullmatch(r"T\d*", k)]
     if "rec" in kv:
         extra.append("rec=" + kv["rec"])
     extra += [f"{k}={v}" for k, v in kv.items() if k.startswith("c.")]
@@ -183,6 +209,8 @@ def impl_canon(op, out):
     if op.startswith("rf "):
         return f"refresh={kv.get('refresh', '?')} push={kv.get('push', '[]')}"
     okv = dict(w.split("=", 1) for w in op.split()[1:] if "=" in w)
+    if okv["path"] == "multi":
+        return " ".join(f"push{k}={kv.get(f'push{k}', '?')}" for k in range(len(okv["sfs"].split("|"))))
     order = {"live": ["push"], "rec": ["reply", "push"], "cache": ["reply", "push"],
              "map": ["state", "stream", "trans", "push", "rejoin"],
              "streamless": ["state", "stream", "trans", "winpush", "push"]}[okv["path"]]
@@ -223,7 +251,7 @@ def _run_chunk(ctx, binary, ic):
 
 def shrink(ctx, binary, op, sig):
     """drop trailing/leading publications while the same signature shows (fs lines only)"""
-    if not op.startswith("fs "):
+    if not op.startswith("fs ") or " path=multi " in op:
         return op
     kv = dict(w.split("=", 1) for w in op.split()[1:])
     specs = kv["pubs"].split(";")
@@ -314,7 +342,7 @@ def run(ctx):
         kv, secs = parse_out(out)
         okv = dict(w.split("=", 1) for w in op.split()[1:] if "=" in w)
         path = okv.get("path", "refresh" if op.startswith("rf ") else "?")
-        tb = [t for t in kv.get("T", "").split(",") if t]
+        tb = [t for k, v in kv.items() if re.fullmatch(r"T\d*", k) for t in v.split(",") if t]
         ndel = sum(len(v) for k, v in secs.items() if not k.startswith("c."))
         nexcl = len([t for t in tb if t != "11"])
         ctx.record(op, nontrivial=ndel > 0 and nexcl > 0)
